@@ -837,6 +837,32 @@ impl Session {
                         while let (Some(x), Some(y)) = (it.next(), it.next_back()) { s ^= x.0.tok ^ y.1.tok; }
                         bb(s);
                     }),
+                    // clone allocates: its allocations are served from a private arena so that
+                    // neither they nor allocator metadata touch the protected pages; the
+                    // throw-away clones are untracked. Second clone: a key type whose Clone
+                    // does not preserve equality (distinct source keys collide in the clone) -
+                    // whatever the clone makes of that, the SOURCE must not be written to.
+                    "clone" | "clone_from" => {
+                        let need = 4096 + 64 * (cache.capacity() + cache.len() + 8) * 4;
+                        if alloc::arena_on(need) {
+                            alloc::arena_off();
+                            g.with_protected(cache, step, || {
+                                set_quiet(true);
+                                alloc::arena_on(need);
+                                let faithful = cache.clone();
+                                set_collapse(1);
+                                let collapsed = cache.clone();
+                                set_collapse(0);
+                                bb((faithful.len() + collapsed.len()) as u64);
+                                alloc::arena_off();
+                                // leaked on purpose: their destructors would run user code and
+                                // (for the collapsed one) walk a table the crate never meant to have
+                                std::mem::forget(faithful);
+                                std::mem::forget(collapsed);
+                                set_quiet(false);
+                            });
+                        }
+                    },
                     _ => { }
                 }
             }
